@@ -146,3 +146,29 @@ Theorem C13_source_write_budget :
   NW.Gen.Headroom.extras_guarded = true /\
   NW.Gen.Headroom.permits_kept_until_release = true.
 Proof. repeat split; reflexivity. Qed.
+
+(* ---- the lock programs of the CURRENT source (coq/Gen/LockPrograms.v, regenerated on every run by
+        translator/locklint.py: per function, map accesses as synchronous sections over their guard's lexical region, the
+        channel lock, every other await as a park point; types pasted from Proofs/LockSource.v by tools/pin.py) ---- *)
+From NW Require Import Gen.LockPrograms Proofs.LockSource.
+
+Theorem C13_source_lock_programs_disciplined :
+  forall c : nat,
+    forallb (fun np : string * program => disciplined (snd np)) (src_programs c) = true.
+Proof. exact src_programs_disciplined. Qed.
+
+Theorem C13_source_handlers_never_wedge :
+  forall (ts : list (nat * nat * list part)) (evs : list sev),
+    snd (lrun (mk_tasks (map src_task ts)) evs) = None.
+Proof. exact source_handlers_never_wedge. Qed.
+
+Theorem C13_source_handlers_deadlock_free :
+  forall (wk : bool) (ts : list (nat * nat * list part)) (evs : list sev),
+    exists evs' : list sev,
+      Forall (ev_ok wk) evs' /\
+      all_done (fst (lrun (fst (lrun (mk_tasks (map src_task ts)) evs)) evs')).
+Proof. exact source_handlers_deadlock_free. Qed.
+
+Theorem C13_source_lock_programs_cover :
+  forall c : nat, (12 <=? Datatypes.length (src_programs c))%nat = true.
+Proof. exact src_programs_cover. Qed.
